@@ -56,16 +56,21 @@ def run(m: Model, r: Report, tier: str) -> None:
     okf = len(filt) == 1 and ast.unparse(filt[0].test).replace(" ", "") in (f"{var}&64and(notself.config.scan_response_ids)", f"{var}&64andnotself.config.scan_response_ids",
                                                                                 f"{var}&0x40andnotself.config.scan_response_ids") and isinstance(filt[0].body[-1], ast.Continue)
     r.check(okf, "R1", f"{ps.qualname}#response-id-filter", "response ids (bit 6) must be skipped exactly when scan_response_ids is off", loc=ps.loc)
-    pay = [n for n in ast.walk(W) if isinstance(n, ast.Assign) and ast.unparse(n.targets[0]) == "pdu"]
-    r.check(len(pay) == 1 and ast.unparse(pay[0].value).replace(" ", "") == f"bytes([{var}])+bytes(length_payload)", "R1", f"{ps.qualname}#probe-pdu",
+    pay = [n for n in ast.walk(W) if isinstance(n, ast.Assign) and isinstance(n.value, ast.BinOp) and "bytes(" in ast.unparse(n.value)]
+    r.check(len(pay) == 1 and m.mtext(ps, pay[0].value).replace(" ", "") == "bytes([_L])+bytes(_L)" and f"bytes([{var}])" in ast.unparse(pay[0].value), "R1", f"{ps.qualname}#probe-pdu",
             f"probe PDU is {ast.unparse(pay[0].value) if pay else None}; expected the service id followed by zero bytes", loc=ps.loc)
 
     # ---------------------------------------------------------------- R2 (both scanners)
-    for fn, probe_text, idvar in ((ps, "self.ecu.send_raw(", var), (m.require_function(f"{IDS}.ScanIdentifiers.perform_scan"), "self.ecu.send_raw(", "DID")):
+    pi0 = m.require_function(f"{IDS}.ScanIdentifiers.perform_scan")
+    id_loops = [n for n in walk_no_nested(pi0.node) if isinstance(n, ast.For) and "product(" in ast.unparse(n.iter) and isinstance(n.target, ast.Tuple)]
+    DIDV = ast.unparse(id_loops[0].target.elts[0]) if id_loops else "DID"
+    SFV = ast.unparse(id_loops[0].target.elts[1]) if id_loops else "sub_function"
+    for fn, probe_text, idvar in ((ps, "self.ecu.send_raw(", var), (pi0, "self.ecu.send_raw(", DIDV)):
         g = CFG(fn.node)
         probes = {n.id for n in g.nodes.values() if n.ast is not None and n.kind == "stmt" and probe_text in ast.unparse(n.ast)}
-        want_skip = f"sessioninself.config.skipand((session_skip:=self.config.skip[session])isNoneor{idvar}insession_skip)"
-        skips = [n for n in g.nodes.values() if n.kind == "cond" and n.ast is not None and ast.unparse(n.ast).replace(" ", "") == want_skip]
+        want_skip = "sessioninself.config.skipand((_L:=self.config.skip[session])isNoneor_Lin_L)"
+        skips = [n for n in g.nodes.values() if n.kind == "cond" and n.ast is not None and m.mtext(fn, n.ast).replace(" ", "") == want_skip
+                 and f"{idvar} in " in ast.unparse(n.ast)]
         if not probes:
             raise AnalysisError(f"{fn.qualname}: probe call not found")
         ok = bool(skips)
@@ -81,7 +86,7 @@ def run(m: Model, r: Report, tier: str) -> None:
                 "the skip map (whole session = None, or listed id) is not consulted before every probe: " + " -> ".join(repr(g.nodes[p]) for p in path[-3:]), loc=fn.loc)
 
     # ---------------------------------------------------------------- R3 / R4
-    lens = [n for n in ast.walk(W) if isinstance(n, ast.For) and ast.unparse(n.target) == "length_payload"]
+    lens = [n for n in ast.walk(W) if isinstance(n, ast.For) and isinstance(n.iter, (ast.List, ast.Tuple))]
     if len(lens) != 1:
         raise AnalysisError(f"{ps.qualname}: payload length loop not found")
     LL = lens[0]
@@ -101,18 +106,18 @@ def run(m: Model, r: Report, tier: str) -> None:
     for n in ast.walk(helper.node):
         if isinstance(n, ast.List):
             helper_set |= codes_in(m, helper, n)
-    ns = [i for i in ifs if isinstance(i.body[-1], ast.Break) and "isinstance(resp, NegativeResponse)" in ast.unparse(i.test)]
-    le = [i for i in ifs if isinstance(i.body[-1], ast.Continue) and "isinstance(resp, NegativeResponse)" in ast.unparse(i.test)]
+    ns = [i for i in ifs if isinstance(i.body[-1], ast.Break) and "isinstance(_L, NegativeResponse)" in m.mtext(ps, i.test)]
+    le = [i for i in ifs if isinstance(i.body[-1], ast.Continue) and "isinstance(_L, NegativeResponse)" in m.mtext(ps, i.test)]
     ns_set = codes_in(m, ps, ns[0].test) if len(ns) == 1 else set()
     le_set = codes_in(m, ps, le[0].test) if len(le) == 1 else set()
     r.check(ns_set == helper_set == {"serviceNotSupported", "serviceNotSupportedInActiveSession"}, "R4", f"{ps.qualname}#not-supported-set",
             f"not-supported codes in the scanner {sorted(ns_set)} vs helper {sorted(helper_set)}", loc=ps.loc)
     r.check(le_set == {"incorrectMessageLengthOrInvalidFormat"}, "R4", f"{ps.qualname}#length-error-set", f"length-error codes: {sorted(le_set)}", loc=ps.loc)
     tail = LL.body[LL.body.index(ifs[-1]) + 1:] if ifs else []
-    rec = [s for s in tail if isinstance(s, ast.Assign) and ast.unparse(s.targets[0]) == f"result[{var}]" and ast.unparse(s.value) == "resp"]
+    rec = [s for s in tail if isinstance(s, ast.Assign) and isinstance(s.targets[0], ast.Subscript) and ast.unparse(s.targets[0].slice) == var and isinstance(s.value, ast.Name)]
     r.check(len(rec) == 1 and isinstance(LL.body[-1], ast.Break) and len(ifs) == 2, "R4", f"{ps.qualname}#record-otherwise",
             "a service must be recorded (and probing stopped) exactly when the reply is neither not-supported nor a length error", loc=ps.loc)
-    r.check(all(isinstance(i.test, ast.BoolOp) and isinstance(i.test.op, ast.And) and ast.unparse(i.test.values[0]) == "isinstance(resp, NegativeResponse)"
+    r.check(all(isinstance(i.test, ast.BoolOp) and isinstance(i.test.op, ast.And) and m.mtext(ps, i.test.values[0]) == "isinstance(_L, NegativeResponse)"
                 and isinstance(i.test.values[1], ast.Compare) and isinstance(i.test.values[1].ops[0], ast.In) for i in ns + le) and len(ns + le) == 2, "R4",
             f"{ps.qualname}#classification-atoms", "both classifications must be `isinstance(resp, NegativeResponse) and resp.response_code in [...]`", loc=ps.loc)
     outer_breaks = [n for n in ast.walk(W) if isinstance(n, ast.Break) and not any(n is x for x in ast.walk(LL))]
@@ -137,22 +142,22 @@ def run(m: Model, r: Report, tier: str) -> None:
             o, _ = g.must_pass(h, setn, scan)
             ok = ok and o
     r.check(ok, "R5", f"{main.qualname}#session-before-scan", "perform_scan(session) is reachable without a preceding set_session(session) in the same iteration", loc=main.loc)
-    negs = [n for n in F.body if isinstance(n, ast.If) and ast.unparse(n.test) == "isinstance(resp, NegativeResponse)" and isinstance(n.body[-1], ast.Continue)]
+    negs = [n for n in F.body if isinstance(n, ast.If) and m.mtext(main, n.test) == "isinstance(_L, NegativeResponse)" and isinstance(n.body[-1], ast.Continue)]
     r.check(len(negs) == 1, "R5", f"{main.qualname}#failed-change-skips", "a refused session change must skip the scan of that session", loc=main.loc)
-    keyed = [n for n in ast.walk(F) if isinstance(n, ast.Assign) and f"found[{sv}]" in ast.unparse(n.targets[0]) and f"self.perform_scan({sv})" in ast.unparse(n.value)]
+    keyed = [n for n in ast.walk(F) if isinstance(n, ast.Assign) and f"[{sv}]" in ast.unparse(n.targets[0]) and f"self.perform_scan({sv})" in ast.unparse(n.value)]
     r.check(len(keyed) == 1, "R5", f"{main.qualname}#findings-keyed-by-session", "findings must be stored under the session they were scanned in", loc=main.loc)
     chk = [n for n in W.body if isinstance(n, ast.If) and "self.config.check_session" in ast.unparse(n.test)]
-    okc = len(chk) == 1 and ast.unparse(chk[0].test) == "session is not None and self.config.check_session" and "self.ecu.check_and_set_session(session)" in ast.unparse(chk[0]) and "return (result, False)" in ast.unparse(chk[0]) and \
+    okc = len(chk) == 1 and ast.unparse(chk[0].test) == "session is not None and self.config.check_session" and "self.ecu.check_and_set_session(session)" in ast.unparse(chk[0]) and m.has(ps, "return (result, False)", chk[0]) and \
         chk[0].lineno < LL.lineno
     r.check(okc, "R5", f"{ps.qualname}#check-session-before-probe", "with check_session the session must be verified before the probes of each service id", loc=ps.loc)
     sess_filter = [n for n in ast.walk(main.node) if isinstance(n, ast.ListComp) and "self.config.sessions" in ast.unparse(n)]
-    r.check(len(sess_filter) == 1 and "s not in self.config.skip or self.config.skip[s] is not None" in ast.unparse(sess_filter[0]), "R5",
+    r.check(len(sess_filter) == 1 and "_L not in self.config.skip or self.config.skip[_L] is not None" in m.mtext(main, sess_filter[0]), "R5",
             f"{main.qualname}#whole-session-skip", "sessions skipped as a whole (skip[s] is None) must not be entered", loc=main.loc)
 
     # ---------------------------------------------------------------- R6-R8
     pi = m.require_function(f"{IDS}.ScanIdentifiers.perform_scan")
     loops = [n for n in walk_no_nested(pi.node) if isinstance(n, ast.For) and "product(" in ast.unparse(n.iter)]
-    r.check(len(loops) == 1 and ast.unparse(loops[0].iter).replace(" ", "") == "product(range(self.config.start,self.config.end+1),sub_functions)", "R6",
+    r.check(len(loops) == 1 and m.mtext(pi, loops[0].iter).replace(" ", "") == "product(range(self.config.start,self.config.end+1),_L)", "R6",
             f"{pi.qualname}#identifier-domain", f"identifier loop iterates over {ast.unparse(loops[0].iter) if loops else None}; the END bound is inclusive", loc=pi.loc)
     clamp = [n for n in walk_no_nested(pi.node) if isinstance(n, ast.If) and "SecurityAccess" in ast.unparse(n.test) and "self.config.end" in ast.unparse(n.test)]
     okcl = False
@@ -164,13 +169,14 @@ def run(m: Model, r: Report, tier: str) -> None:
     r.check(okcl, "R7", f"{pi.qualname}#seven-bit-limit", "for SecurityAccess an END above 0x7F must be limited to exactly 0x7F (assignment, not masking)", loc=pi.loc)
     pdus = {}
     for n in ast.walk(loops[0]) if loops else []:
-        if isinstance(n, ast.Assign) and ast.unparse(n.targets[0]) == "pdu":
+        if isinstance(n, ast.Assign) and isinstance(n.value, ast.Call) and ast.unparse(n.value.func) == "bytes":
             pdus[n.lineno] = ast.unparse(n.value).replace(" ", "")
     vals = list(pdus.values())
-    r.check("bytes([self.config.service,DID])" in vals, "R7", f"{pi.qualname}#pdu-security-access", f"PDU forms: {vals}", loc=pi.loc)
-    r.check("bytes([self.config.service,sub_function,DID>>8,DID&255])" in vals, "R7", f"{pi.qualname}#pdu-routine-control", f"PDU forms: {vals}", loc=pi.loc)
-    r.check("bytes([self.config.service,DID>>8,DID&255])" in vals, "R7", f"{pi.qualname}#pdu-did", f"PDU forms: {vals}", loc=pi.loc)
-    rc = [n for n in walk_no_nested(pi.node) if isinstance(n, ast.Assign) and ast.unparse(n.targets[0]) == "sub_functions" and "RoutineControlSubFuncs" in ast.unparse(n.value)]
+    r.check(f"bytes([self.config.service,{DIDV}])" in vals, "R7", f"{pi.qualname}#pdu-security-access", f"PDU forms: {vals}", loc=pi.loc)
+    r.check(f"bytes([self.config.service,{SFV},{DIDV}>>8,{DIDV}&255])" in vals, "R7", f"{pi.qualname}#pdu-routine-control", f"PDU forms: {vals}", loc=pi.loc)
+    r.check(f"bytes([self.config.service,{DIDV}>>8,{DIDV}&255])" in vals, "R7", f"{pi.qualname}#pdu-did", f"PDU forms: {vals}", loc=pi.loc)
+    sfl = ast.unparse(loops[0].iter.args[1]) if loops and isinstance(loops[0].iter, ast.Call) and len(loops[0].iter.args) == 2 else "sub_functions"
+    rc = [n for n in walk_no_nested(pi.node) if isinstance(n, ast.Assign) and ast.unparse(n.targets[0]) == sfl and "RoutineControlSubFuncs" in ast.unparse(n.value)]
     r.check(len(rc) == 1, "R7", f"{pi.qualname}#routine-sub-functions", "RoutineControl must be scanned for every RoutineControlSubFuncs member", loc=pi.loc)
     ibreaks = [n for n in ast.walk(loops[0]) if isinstance(n, ast.Break)] if loops else []
     okbr = all(any(isinstance(a, ast.If) and ast.unparse(a.test) == "self.config.skip_not_supported" and n in a.body for a in ast.walk(loops[0])) for n in ibreaks)
@@ -180,15 +186,22 @@ def run(m: Model, r: Report, tier: str) -> None:
                                          "self.config.service==UDSIsoServices.SecurityAccess", "self.config.service==UDSIsoServices.RoutineControl"]), "R7",
             f"{pi.qualname}#service-dispatch", f"service tests {svc_tests}", loc=pi.loc)
     chk_i = [ast.unparse(n.test).replace(" ", "") for n in ast.walk(pi.node) if isinstance(n, ast.If) and "self.config.check_session" in ast.unparse(n.test)]
-    r.check(chk_i == ["sessionisnotNoneandself.config.check_sessionand(DID%self.config.check_session==0)"], "R5", f"{pi.qualname}#check-session",
+    r.check(chk_i == [f"sessionisnotNoneandself.config.check_sessionand({DIDV}%self.config.check_session==0)"], "R5", f"{pi.qualname}#check-session",
             f"check-session test {chk_i}", loc=pi.loc)
-    inc = [n for n in ast.walk(pi.node) if isinstance(n, ast.AugAssign) and ast.unparse(n.target) == "positive_DIDs"]
+    # the positive counter: the counter reported as 'Positive replies'
+    pos_names = [n.values[1].value.id for n in ast.walk(pi.node) if isinstance(n, ast.JoinedStr) and n.values and isinstance(n.values[0], ast.Constant)
+                 and str(n.values[0].value).startswith("Positive replies") and len(n.values) > 1 and isinstance(n.values[1], ast.FormattedValue) and isinstance(n.values[1].value, ast.Name)]
+    if not pos_names:
+        pos_names = [x.values[1].value.id for x in ast.walk(m.raw_function(pi)) if isinstance(x, ast.JoinedStr) and x.values and isinstance(x.values[0], ast.Constant)
+                     and str(x.values[0].value).startswith("Positive replies") and len(x.values) > 1 and isinstance(x.values[1], ast.FormattedValue) and isinstance(x.values[1].value, ast.Name)]
+    PCV = pos_names[0] if pos_names else "positive_DIDs"
+    inc = [n for n in ast.walk(pi.node) if isinstance(n, ast.AugAssign) and ast.unparse(n.target) == PCV]
     okp = False
     if len(inc) == 1:
         for i in ast.walk(pi.node):
-            if isinstance(i, ast.If) and ast.unparse(i.test) == "isinstance(resp, NegativeResponse)" and any(inc[0] is x for s in i.orelse for x in ast.walk(s)):
+            if isinstance(i, ast.If) and m.mtext(pi, i.test) == "isinstance(_L, NegativeResponse)" and any(inc[0] is x for s in i.orelse for x in ast.walk(s)):
                 okp = True
-    r.check(okp, "R8", f"{pi.qualname}#positive-counter", "positive_DIDs must be incremented exactly in the else-branch of isinstance(resp, NegativeResponse)", loc=pi.loc)
+    r.check(okp, "R8", f"{pi.qualname}#positive-counter", "the positive counter must be incremented exactly in the else-branch of isinstance(resp, NegativeResponse)", loc=pi.loc)
 
     # ---------------------------------------------------------------- R9
     check_unravel_2d(m, r, "R9")
